@@ -303,6 +303,12 @@ class CallMixin:
                 if r is not None:
                     return r
             else:
+                ov = self.registry.const_override(module.name, name)
+                if ov is not None:
+                    key = ("const", module.name, name)
+                    if key not in self.path.memo:
+                        self.path.memo[key] = ov(self)
+                    return self.path.memo[key]
                 if name in module.functions:
                     return VFunc(module.functions[name], module, name=name)
                 if name in module.classes:
@@ -540,7 +546,7 @@ class CallMixin:
                 e2 = Env(env.module, dict(env.locals), env.closure)
                 a = self.spec_block(st.body + rest, e1)
                 b = self.spec_block(st.orelse + rest, e2)
-                return vals.ite(c, a, b)
+                return vals.ite(c, self.deref(a), self.deref(b))
             raise Unsupported(f"statement {type(st).__name__} in a specification function (line {st.lineno})")
         return NONE
 
@@ -588,7 +594,14 @@ class CallMixin:
         values = dict(env.locals)
         values.update(extra)
         if fr.yielded is not None:
-            values["_yielded"] = fr.yielded
+            y = fr.yielded
+            if y.items is not None and fr.yield_kind() is not None:
+                tmpl = vals.fresh("list[" + fr.yield_kind() + "]", "tmpl")
+                if y.items:
+                    y = vals.coerce(y, tmpl)
+                else:
+                    y = VList(z3.IntVal(0), vals.lift_const(vals.dummy_like(vals.sel(tmpl.elem, z3.IntVal(0))), INT))
+            values["_yielded"] = y
         # only names that are bound
         values = {k: v for k, v in values.items() if v is not None}
         saved = (self.spec_mode, self.spec_frame)
